@@ -29,6 +29,7 @@ RULE += ("  " + 'Also (round 7): a server that asks for the account before (332,
 RULE += ("  " + 'Also (round 8): a PASS line beyond the stream limit arriving in two pieces.')
 RULE += ("  " + 'Also (round 9): a client whose encoding cannot carry the password it is given.')
 RULE += ("  " + 'Also (round 10): login() with a password that has a line break in it (nothing behind the break travels as a command of its own); a latin-1 client with a password beyond ASCII against the utf-8 server (needle: the longest plain run; the twin keeps the letters beyond ASCII).')
+RULE += ("  " + 'Also (round 11): the same PASS line five times; the data-port pool exhausted by sessions of the account (a warning that names the user); log records of every level, not DEBUG and above.')
 ASSUMPTIONS = ["passwords with CR/LF are not carriable by the line protocol and are excluded; blanks at the ends are sent (the server "
                "strips them, so such logins are rejected) and searched for without them",
                "all loggers propagate to the root logger (true for aioftp.client / aioftp.server)"]
